@@ -1,7 +1,8 @@
 """C08 — bubble and dew points satisfy their equations and bracket the two-phase region.
 
 Monitor: the real BubblePoint / DewPoint solvers are called on random compositions; the oracle recomputes the residual
-of the defining equation from the solver's own public model objects (gamma, phi, pcf, Psat) at the returned point and
+of the defining equation at the returned point from models the harness builds itself from the package (th.Gamma, th.Phi, th.PCF,
+Chemical.Psat - not the objects the solver holds; that the solver holds objects of these classes is a clause of its own) and
 checks normalisation, the T<->P inverse relation, bracketing, the single-component limit, permutation equivariance and
 independence of the scale of z.
 """
@@ -17,9 +18,11 @@ RULE = ('1-5 of 11 volatile chemicals, compositions incl. zeros and traces (1e-1
         'P_dew <= P_bubble, single component = Tsat/Psat, permutation, scale. added by the coverage audit: UNIFAC activity coefficients and the ideal-gas Poynting factor; solve_P(solve_T(P)) = P; the call form '
         'BubblePoint / DewPoint(z as list / tuple, T= | P=) and its result object (echoed value, IDs, normalised z, y / x, value of the solve_* method); Stream.bubble_point_at_T / _at_P / dew_point_at_T / _at_P with flows k*z (default, '
         'explicit and IDs= forms) against the solver; permuted compositions for all four solvers, random permutations for n = 4; single component with k*z, through the call form and at another list position; a solver on a subset of the '
-        'package against a package of that subset; the cached instance against a fresh one. non-trivial = >=2 components above 1e-6 and a converged residual evaluated; distinct = hash of the case')
+        'package against a package of that subset; the cached instance against a fresh one. oracle audit: reference models built from the package (clause wiring: the solver holds models of the classes of the package for exactly its chemicals); a temperature returned at / outside the domain of the solver is a violation when the evaluation by the harness of the equation at both ends of the common vapour-pressure window brackets a root, and a refusal (InfeasibleRegion / DomainError / NoEquilibrium) is granted only where the harness sees no root; an iterate that is not a root is tolerated as the recorded non-convergence only for T-solves above 5e5 Pa / P-solves above 0.85 Tc or 5e5 Pa (family, ideal) and judged strictly below; k*z through solve_Ty / solve_Px / solve_Tx must be the root of the as-given equation (the recorded mechanism) where the harness sees one. non-trivial = >=2 components above 1e-6 and a converged residual evaluated; distinct = hash of the case')
 MIN_NONTRIVIAL = {'quick': 300, 'thorough': 8000}
-ASSUMPTIONS = ['residuals are recomputed from the solver object\'s own gamma/phi/pcf/Psat members', 'dew-side permutation tolerance is 1e-4 K / 1e-6 relative in P (the inner dew iteration is not converged tighter than that); input classes: "family" = all members from one homologous family or ideal package; "cross-family" = non-ideal package with members of different families']
+ASSUMPTIONS = ['residuals are recomputed from harness-side models built from the package: th.Gamma(chemicals), th.Phi(chemicals), th.PCF(chemicals), Chemical.Psat (the activity / Poynting / vapour-pressure models themselves are data here; C16 judges them)',
+               'the classification "unconverged iterate" (recorded finding) still reads the solver\'s private _T_error / _P_error at the returned point; it is granted for family / ideal inputs only in the high-pressure / near-critical bucket decided from the inputs and a harness-side Raoult estimate',
+               'dew-side permutation tolerance is 1e-4 K / 1e-6 relative in P (the inner dew iteration is not converged tighter than that); input classes: "family" = all members from one homologous family or ideal package; "cross-family" = non-ideal package with members of different families']
 FAMILIES = {'alcohol': ('Methanol', 'Ethanol', 'Propanol', 'Butanol'), 'alkane-aromatic': ('Hexane', 'Heptane', 'Octane', 'Benzene', 'Toluene'), 'other': ('Water', 'Acetone')}
 ALL = tuple(i for f in FAMILIES.values() for i in f)
 
@@ -30,7 +33,10 @@ def required(tier):
     return ['bubble-residual', 'dew-residual', 'normalised', 'inverse', 'bracket', 'single-component', 'permutation', 'scale', 'pkg:ideal', 'pkg:dortmund',
             # coverage audit
             'pkg:unifac', 'pkg:pcf', 'call-form', 'call-form:list', 'call-form:tuple', 'stream-level', 'stream-level:default', 'stream-level:IDs', 'single:scaled', 'single:call-form', 'single:permuted', 'single:saturation-residual', 'single:inverse',
-            'permutation:random', 'subset-of-package', 'fresh-instance', 'cache']
+            'permutation:random', 'subset-of-package', 'fresh-instance', 'cache',
+            # oracle audit
+            'wiring', 'wiring:permuted', 'scale:as-given-root:BubblePoint.solve_Ty', 'scale:as-given-root:DewPoint.solve_Px', 'scale:as-given-root:DewPoint.solve_Tx',
+            'bucket:solve_Tx/low-pressure/family', 'bucket:solve_Tx/low-pressure/ideal-package', 'bucket:solve_Px/low-pressure/family', 'bucket:solve_Px/low-pressure/ideal-package']
 
 
 def thermo(ids, ideal, pkg=None):
@@ -86,44 +92,214 @@ def input_class(case):
     return 'family' if len(fam) <= 1 and fam != {'other'} else 'cross-family'
 
 
-def bubble_residual(bp, z, T, P, y):
+class HarnessModelError(Exception):
+    """raised (and caught) by the harness itself: no library frame is on its traceback, so Recorder.exception files it as a harness error (run inconclusive)"""
+
+
+def harness_error(rec, clause, msg):
+    try: raise HarnessModelError(msg)
+    except HarnessModelError as e: rec.exception(clause, e)
+
+
+PROGRAMMING = (AttributeError, TypeError, NameError, KeyError, IndexError, ImportError, NotImplementedError)
+REFUSALS = ('InfeasibleRegion', 'DomainError', 'NoEquilibrium')
+KTAG = {0.5: 'k=0.5', 2.0: 'k=2', 1e-3: 'k=1e-3', 1e3: 'k=1e3'}       # the four scale factors as key segments (k=1e*: the as-given problem lies three decades outside the pressure range)
+
+
+class RefModels:
+    """the models of modified Raoult's law built by the harness from the package (never read off the solver under test)"""
+    __slots__ = ('th', 'chemicals', 'gamma', 'phi', 'pcf', 'Psats')
+
+    def __init__(self, th, chems):
+        self.th = th; self.chemicals = tuple(chems)
+        self.gamma = th.Gamma(self.chemicals); self.phi = th.Phi(self.chemicals); self.pcf = th.PCF(self.chemicals)
+        self.Psats = [c.Psat for c in self.chemicals]
+
+
+_ref = {}
+
+
+def ref_models(th, chems):
+    k = (id(th), tuple(c.ID for c in chems))
+    m = _ref.get(k)
+    if m is None or m.th is not th: m = _ref[k] = RefModels(th, chems)
+    return m
+
+
+def check_wiring(rec, solver, ref, tag):
+    """the solver holds models of the package's classes for exactly its chemicals (a default Gamma, the Psat handles of another tuple or an instance cached
+    for another package would leave every solver-against-solver clause silent)"""
+    rec.hit('wiring' if '/' not in tag else 'wiring:' + tag.split('/')[1])
+    facts = (('gamma', type(solver.gamma) is type(ref.gamma)), ('phi', type(solver.phi) is type(ref.phi)), ('pcf', type(solver.pcf) is type(ref.pcf)),
+             ('chemicals', tuple(solver.chemicals) == ref.chemicals), ('IDs', tuple(solver.IDs) == tuple(c.ID for c in ref.chemicals)),
+             ('Psats', len(solver.Psats) == len(ref.Psats) and all(a is b for a, b in zip(solver.Psats, ref.Psats))))
+    if all(ok for _, ok in facts): rec.ok('wiring'); return
+    for member, ok in facts:
+        if ok: continue
+        rec.check(False, 'wiring', f'{tag}/{member}', f'{type(solver).__name__} built on {[c.ID for c in ref.chemicals]} with Gamma={ref.th.Gamma.__name__}, Phi={ref.th.Phi.__name__}, PCF={ref.th.PCF.__name__}: '
+                  f'member {member} is {getattr(solver, member, None)!r:.200}')
+
+
+def bubble_residual(ref, z, T, P, y, w=None):
+    """1 - sum(y) of modified Raoult's law at (T, P) from the harness-side models; w: the amounts as given (k*z) for the as-given equation of the recorded scale finding"""
     zn = z / z.sum()
-    Psats = np.array([p(T) for p in bp.Psats], float)
-    yphi = zn * Psats * bp.gamma(zn.copy(), T) * bp.pcf(T, P, Psats) / P
-    phi = bp.phi(y.copy(), T, P)
+    Psats = np.array([p(T) for p in ref.Psats], float)
+    yphi = (zn if w is None else w) * Psats * ref.gamma(zn.copy(), T) * ref.pcf(T, P, Psats) / P
+    phi = ref.phi(y.copy(), T, P)
     return 1.0 - float((yphi / phi).sum()), yphi / phi
 
 
-def dew_residual(dp, z, T, P, x):
+def dew_residual(ref, z, T, P, x, w=None):
     zn = z / z.sum()
-    Psats = np.array([p(T) for p in dp.Psats], float)
+    Psats = np.array([p(T) for p in ref.Psats], float)
     m = zn > 0
     xs = x.copy(); xs[xs < 1e-32] = 1e-32; xs = xs / xs.sum()
-    gamma = dp.gamma(xs.copy(), T)
-    xi = zn * dp.phi(zn.copy(), T, P) * P / (Psats * dp.pcf(T, P, Psats) * gamma)
+    gamma = ref.gamma(xs.copy(), T)
+    xi = (zn if w is None else w) * ref.phi(zn.copy(), T, P) * P / (Psats * ref.pcf(T, P, Psats) * gamma)
     return 1.0 - float(xi[m].sum()), xi
 
 
-def dew_status(dp, z, T, P, x, method):
-    """'ok' | 'unconverged' (the solver's own error function is not at a root at the returned point: an iterate returned
-    silently because the iteration runs with checkiter=False) | 'wrong' (the solver believes it converged but the dew equation does not hold)"""
+# ---- the harness's own evaluation of the two equations as functions of T (P): used only to decide whether a root exists where the solver returned an edge of
+#      its domain or refused (never as the expected value of a judged result)
+def bubble_f(ref, zn, T, P, w=None):
+    Psats = np.array([p(T) for p in ref.Psats], float)
+    yphi = (zn if w is None else w) * Psats * ref.gamma(zn.copy(), T) * ref.pcf(T, P, Psats) / P
+    yy = yphi; y = yphi / yphi.sum()
+    for _ in range(4):
+        yy = yphi / ref.phi(y, T, P); y = yy / yy.sum()
+    return 1.0 - float(np.sum(yy)), True
+
+
+def dew_f(ref, zn, T, P, w=None, maxiter=80):
+    """1 - sum(x) with x from the harness's own successive substitution x <- c / gamma(x) (plain for 10 sweeps, then damped); (value, converged)"""
+    Psats = np.array([p(T) for p in ref.Psats], float)
+    m = zn > 0
+    c = (zn if w is None else w) * ref.phi(zn.copy(), T, P) * P / (Psats * ref.pcf(T, P, Psats))
+    x = c.copy()
+    for it in range(maxiter):
+        xs = x.copy(); xs[xs < 1e-32] = 1e-32; xs = xs / xs.sum()
+        xn = c / ref.gamma(xs, T)
+        if float(np.abs(xn - x).max()) <= 1e-12 * max(1.0, float(np.abs(xn).max())): return 1.0 - float(xn[m].sum()), True
+        x = xn if it < 10 else 0.5 * (x + xn)
+    return 1.0 - float(x[m].sum()), False
+
+
+def psat_window(ref, z, Tlo, Thi):
+    """the temperatures inside the vapour-pressure range of every chemical present, one kelvin inside the solver's own domain"""
+    present = [j for j in range(len(z)) if z[j] > 0]
+    return max([Tlo + 1.0] + [float(ref.Psats[j].Tmin) for j in present]), min([Thi - 1.0] + [float(ref.Psats[j].Tmax) for j in present])
+
+
+def root_interior(kind, ref, z, P, Tlo, Thi, w=None):
+    """True: the equation (bubble: 1 - sum y, dew: 1 - sum x, at pressure P) changes sign between the ends of the window, so a root lies inside it;
+    False: it does not (P outside the bubble / dew pressures over the window); None: could not be decided (own iteration not converged, non-finite)"""
+    lo, hi = psat_window(ref, z, Tlo, Thi)
+    if not (lo < hi and np.isfinite(P) and P > 0): return None
+    zn = z / z.sum()
+    f = bubble_f if kind == 'bubble' else dew_f
     try:
-        res, _ = dew_residual(dp, z, T, P, np.asarray(x, float))
+        (flo, c1), (fhi, c2) = f(ref, zn, lo, P, w), f(ref, zn, hi, P, w)
     except Exception:
-        return 'unconverged', float('nan')
-    if abs(res) <= 1e-6 and (np.asarray(x) >= 0).all(): return 'ok', res
+        return None
+    if not (c1 and c2 and np.isfinite(flo) and np.isfinite(fhi)): return None
+    # both sums grow (bubble: sum y) / fall (dew: sum x) with temperature
+    return bool(flo > 1e-6 and fhi < -1e-6) if kind == 'bubble' else bool(flo < -1e-6 and fhi > 1e-6)
+
+
+def dew_P_root_exists(ref, z, T, w=None):
+    """does the harness see a dew pressure at T (the as-given equation for w)?  brackets the Raoult estimate by a factor 50"""
     zn = z / z.sum()
     try:
-        xx = np.asarray(x, float).copy()
+        Psats = np.array([p(T) for p in ref.Psats], float)
+        est = 1.0 / float(((zn if w is None else w) / Psats).sum())
+        (flo, c1), (fhi, c2) = dew_f(ref, zn, T, est / 50, w), dew_f(ref, zn, T, est * 50, w)
+    except Exception:
+        return None
+    if not (c1 and c2 and np.isfinite(flo) and np.isfinite(fhi)): return None
+    return bool(flo > 1e-6 and fhi < -1e-6)
+
+
+def bucket(ref, z, method, T, P):
+    """input class of one solve for the recorded non-convergence (secant / IQ fallback with checkiter=False): 'high-pressure' = T-solve above 5e5 Pa, P-solve above
+    0.85 of the lowest critical temperature present or with a Raoult estimate of the answer above 5e5 Pa.  decided from the given value and harness-side data only"""
+    if method in ('solve_Tx', 'solve_Ty'): return 'high-pressure' if not (P <= 5e5) else 'low-pressure'
+    present = [j for j in range(len(z)) if z[j] > 0]
+    if not (T <= 0.85 * min(ref.chemicals[j].Tc for j in present)): return 'high-pressure'
+    zn = z / z.sum()
+    Psats = np.array([p(T) for p in ref.Psats], float)
+    est = 1.0 / float((zn / Psats).sum()) if method == 'solve_Px' else float((zn * Psats).sum())
+    return 'high-pressure' if not (est <= 5e5) else 'low-pressure'
+
+
+def dew_status(rec, dp, ref, z, T, P, x, method, cls):
+    """'ok' | 'unconverged' (the recorded finding: the solver's own error function is not at a root at the returned point - an iterate returned silently because
+    the iteration runs with checkiter=False; granted on cross-family inputs and, for family / ideal inputs, in the high-pressure bucket only) | 'unconverged-low'
+    (the same observation in the low-pressure bucket of a family / ideal input: judged strictly) | 'wrong' (the solver believes it converged but the dew equation does
+    not hold) | 'unclassified' (not a root, and the solver's own error function raised there) | 'non-physical' (non-finite or non-positive value / composition) |
+    'harness-error' (the harness could not evaluate: filed as a harness error, run inconclusive)"""
+    x = np.asarray(x, float)
+    if not (np.isfinite(x).all() and np.isfinite(T) and np.isfinite(P) and T > 0 and P > 0): return 'non-physical', float('nan')
+    try:
+        res, _ = dew_residual(ref, z, T, P, x)
+    except Exception as e:
+        harness_error(rec, 'dew-residual', f'the harness-side dew residual could not be evaluated at T={T!r}, P={P!r}, x={x.tolist()}: {type(e).__name__}: {e}')
+        return 'harness-error', float('nan')
+    if abs(res) <= 1e-6 and (x >= 0).all(): return 'ok', res
+    zn = z / z.sum()
+    own = inner = None
+    try:
+        xx = x.copy()
         if method == 'solve_Tx': own = dp._T_error(T, P, zn, zn * P, xx)
         else:
             Psats = np.array([p(T) for p in dp.Psats], float)
             own = dp._P_error(P, T, zn, zn / Psats, Psats, xx)
-        inner = float(np.abs(xx / max(xx.sum(), 1e-300) - np.asarray(x, float)).max())
+        inner = float(np.abs(xx / max(xx.sum(), 1e-300) - x).max())
+    except PROGRAMMING as e:
+        # the private helper this classification relies on is gone / has another signature: that decides nothing about the property
+        harness_error(rec, 'dew-residual', f'the solver\'s private error function could not be called for the classification: {type(e).__name__}: {e}')
+        return 'harness-error', res
     except Exception:
-        return 'unconverged', res
-    if abs(own) > 1e-7 or inner > 1e-7 or not np.isfinite(own): return 'unconverged', res
-    return 'wrong', res
+        own = None
+    if own is not None and np.isfinite(own) and abs(own) <= 1e-7 and inner <= 1e-7: return 'wrong', res
+    if cls == 'cross-family': return 'unconverged', res
+    if own is None: return 'unclassified', res
+    return ('unconverged' if bucket(ref, z, method, T, P) == 'high-pressure' else 'unconverged-low'), res
+
+
+DEW_KEY = {'unconverged': 'unconverged-iterate', 'unconverged-low': 'low-pressure/iterate-not-a-root', 'wrong': 'converged-but-wrong', 'unclassified': 'not-a-root/own-error-function-raised',
+           'non-physical': 'non-physical-result'}
+
+
+def bubble_iterate_sfx(rec, bp, ref, z, T, P, y, cls):
+    """classification of a bubble temperature that is not a root: '/unconverged-iterate' (recorded finding: the solver's own error function is not at a root there; cross-family
+    inputs, and family / ideal inputs above 5e5 Pa), '/low-pressure/iterate-not-a-root' (the same below 5e5 Pa on family / ideal inputs: strict), '' (own error function at a root)"""
+    own = None
+    try:
+        own = bp._T_error(T, P, z / P, z / z.sum(), np.asarray(y, float).copy())
+    except PROGRAMMING as e:
+        harness_error(rec, 'bubble-residual', f'the solver\'s private error function could not be called for the classification: {type(e).__name__}: {e}')
+        return ''
+    except Exception:
+        own = None
+    if own is not None and np.isfinite(own) and abs(own) <= 1e-7: return ''
+    if cls == 'cross-family' or bucket(ref, z, 'solve_Ty', T, P) == 'high-pressure': return '/unconverged-iterate'
+    return '/low-pressure/iterate-not-a-root'
+
+
+def as_given_class(ref, method, z, k, T0, P0, r, Tlo, Thi):
+    """the recorded scale finding says solve_Ty / solve_Px / solve_Tx use the amounts as given (k*z) in the linear factor of the equation: 'root' = the returned point is the
+    root of that as-given equation (the recorded mechanism and nothing else), 'missed' = it is not although the harness sees a root inside the window, 'no-root' = it is not and
+    the harness sees no such root (the as-given problem has left the domain) or cannot decide"""
+    w = k * z
+    val, comp = r[0], np.asarray(r[1], float)
+    T_, P_ = (T0, val) if method == 'solve_Px' else (val, P0)
+    if np.isfinite(val) and val > 0 and np.isfinite(comp).all() and (method == 'solve_Px' or Tlo < T_ < Thi):
+        try: res = (bubble_residual if method == 'solve_Ty' else dew_residual)(ref, z, T_, P_, comp, w=w)[0]
+        except Exception: res = None
+        if res is not None and abs(res) <= 1e-6: return 'root'
+    if method == 'solve_Px': inside = dew_P_root_exists(ref, z, T0, w)
+    else: inside = root_interior('bubble' if method == 'solve_Ty' else 'dew', ref, z, P0, Tlo, Thi, w)
+    return 'missed' if inside is True else 'no-root'
 
 
 def run_case(case, rec):
@@ -140,25 +316,42 @@ def run_case(case, rec):
         bp = eq.BubblePoint(chems, th); dp = eq.DewPoint(chems, th)
     except Exception as e:
         rec.exception('construct', e, what=f'BubblePoint/DewPoint construction raised {type(e).__name__}: {e}'); return
+    ref = ref_models(th, chems)            # harness-side models from the package: every residual below is computed from these, not from the solver's members
+    check_wiring(rec, bp, ref, 'BubblePoint'); check_wiring(rec, dp, ref, 'DewPoint')
     # keep T inside every vapour-pressure range and the solvers' own domain
     T0 = min(max(T0, bp.Tmin + 5), bp.Tmax - 5)
+    Tlo, Thi = bp.Tmin, bp.Tmax
     npos = int((z > 0).sum())
     results = {}
-    def call(name, fn):
+    def call(name, fn, vkey=None, root=None, exc_clause=None):
+        """vkey = (clause, key) under which a refusal the harness does not see warranted is reported; root: None = the problem posed has a root by construction
+        (a pressure at a temperature inside the domain; the inverse of a value just computed), else a callable giving the harness's own verdict (True = a root lies inside the window)"""
         try:
             r = fn()
             results[name] = r
             return r
         except Exception as e:
             nm = type(e).__name__
-            if nm in ('InfeasibleRegion', 'DomainError', 'NoEquilibrium'):
-                rec.refuse(f'{name}: {nm}'); return None
-            rec.exception(name.split(':')[0] + '/' + cls, e, what=f'{name} ({cls}, n={npos}) raised {nm}: {str(e)[:120]}'); return None
-    Pb = call('bubble-residual:solve_Py', lambda: bp.solve_Py(z.copy(), T0))
-    Tb = call('bubble-residual:solve_Ty', lambda: bp.solve_Ty(z.copy(), P0))
-    Pd = call('dew-residual:solve_Px', lambda: dp.solve_Px(z.copy(), T0))
-    Td = call('dew-residual:solve_Tx', lambda: dp.solve_Tx(z.copy(), P0))
-    dew_key = '' if cls != 'cross-family' else '/cross-family-nonideal'
+            if nm in REFUSALS:
+                inside = True if root is None else root()
+                if inside is True and vkey is not None:
+                    rec.hit('refusal:not-warranted')
+                    rec.check(False, vkey[0], vkey[1] + '/refused-although-a-root-exists', f'{name} ({cls}, n={npos}) raised {nm}: {str(e)[:120]} although the harness sees a root of the equation inside the common vapour-pressure window (z={z.tolist()}, ids={ids}, T={T0}, P={P0})')
+                else:
+                    rec.refuse(f'{name}: {nm}' + (' (the harness sees no root inside the common vapour-pressure window)' if inside is False else ' (the existence of a root could not be decided by the harness)'))
+                return None
+            rec.exception(exc_clause or (name.split(':')[0] + '/' + cls), e, what=f'{name} ({cls}, n={npos}) raised {nm}: {str(e)[:120]}'); return None
+    def dew_exc(m, T, P, clause='dew-residual'):
+        # exceptions of the dew solves carry method and pressure bucket on family / ideal inputs (the recorded divergence of the unchecked inner iteration is a high-pressure phenomenon there)
+        if cls == 'cross-family': return f'{clause}/cross-family'
+        b = bucket(ref, z, m, T, P)
+        if clause == 'dew-residual': rec.hit(f'bucket:{m}/{b}/{cls}')
+        return f'{clause}/{m}/{cls}/{b}'
+    if npos > 1 and cls != 'cross-family': rec.hit(f'bucket:solve_Ty/{bucket(ref, z, "solve_Ty", T0, P0)}/{cls}')
+    Pb = call('bubble-residual:solve_Py', lambda: bp.solve_Py(z.copy(), T0), ('bubble-residual', f'solve_Py/{cls}'))
+    Tb = call('bubble-residual:solve_Ty', lambda: bp.solve_Ty(z.copy(), P0), ('bubble-residual', f'solve_Ty/{cls}'), lambda: root_interior('bubble', ref, z, P0, Tlo, Thi))
+    Pd = call('dew-residual:solve_Px', lambda: dp.solve_Px(z.copy(), T0), ('dew-residual', f'solve_Px/{cls}'), None, dew_exc('solve_Px', T0, P0) if npos > 1 else None)
+    Td = call('dew-residual:solve_Tx', lambda: dp.solve_Tx(z.copy(), P0), ('dew-residual', f'solve_Tx/{cls}'), lambda: root_interior('dew', ref, z, P0, Tlo, Thi), dew_exc('solve_Tx', T0, P0) if npos > 1 else None)
     # ---- single component: exactly the saturation values
     if npos == 1:
         k = int(np.argmax(z)); c = chems[k]
@@ -179,35 +372,38 @@ def run_case(case, rec):
             rec.check(abs(res) <= 1e-6 * P0 + 0.1, 'single-component', name + '/saturation-residual', f'single component {c.ID}: {name} at P={P0} gives T={r[0]!r} where Psat(T) - P = {res!r} Pa', residual=abs(res) / P0)
         for name, r, solver in (('bubble', Pb, lambda P: bp.solve_Ty(z.copy(), P)), ('dew', Pd, lambda P: dp.solve_Tx(z.copy(), P))):
             if r is None or not inside(T0) or not (5e3 <= r[0] <= 3e6) or r[0] > c.Pc: continue
-            back = call('inverse:single:' + name, lambda: solver(r[0]))
+            back = call('inverse:single:' + name, lambda: solver(r[0]), ('inverse', f'{name}/single-component'))
             if back is None: continue
             rec.hit('single:inverse')
             rec.check(abs(back[0] - T0) <= 1e-4, 'inverse', f'{name}/single-component', f'single component {c.ID}: T at the {name} pressure {r[0]!r} obtained from T={T0} is {back[0]!r}', residual=abs(back[0] - T0))
         try: single_extra(case, rec, th, chems, bp, dp, z, T0, P0, k)
         except Exception as e: rec.exception('harness', e, what=f'harness error in the additional single-component clauses: {type(e).__name__}: {e}')
         rec.mark_nontrivial(case_hash(case)); return
-    Tlo, Thi = bp.Tmin, bp.Tmax
     # ---- residuals and normalisation
     if Pb is not None:
         P, y = Pb; y = np.asarray(y, float)
-        res, _ = bubble_residual(bp, z, T0, P, y)
+        res, _ = bubble_residual(ref, z, T0, P, y)
         rec.check(abs(res) <= 1e-6, 'bubble-residual', f'solve_Py/{cls}', f'bubble pressure {P!r} at T={T0}: 1 - sum(y) recomputed = {res!r} (z={z.tolist()}, ids={ids})', residual=abs(res))
         rec.check(abs(y.sum() - 1) <= 1e-12 and (y >= 0).all(), 'normalised', 'solve_Py', f'returned y {y.tolist()} sums to {y.sum()!r}')
     bub_bad = {}
     if Tb is not None:
         T, y = Tb; y = np.asarray(y, float)
         if Tlo < T < Thi:
-            res, _ = bubble_residual(bp, z, T, P0, y)
+            res, _ = bubble_residual(ref, z, T, P0, y)
             sfx = ''
-            if abs(res) > 1e-6:
+            if not abs(res) <= 1e-6:
                 # is the solver's own error function at a root here?  (the secant / IQ fallback run with checkiter=False)
-                try:
-                    zn = z / z.sum(); own = bp._T_error(T, P0, z / P0, zn, y.copy())
-                    if abs(own) > 1e-7 or not np.isfinite(own): sfx = '/unconverged-iterate'
-                except Exception: sfx = '/unconverged-iterate'
-            if sfx: bub_bad['solve_Ty'] = 'unconverged'
+                sfx = bubble_iterate_sfx(rec, bp, ref, z, T, P0, y, cls)
+            if sfx == '/unconverged-iterate': bub_bad['solve_Ty'] = 'unconverged'
             rec.check(abs(res) <= 1e-6, 'bubble-residual', f'solve_Ty/{cls}{sfx}', f'bubble temperature {T!r} at P={P0}: 1 - sum(y) recomputed = {res!r} (z={z.tolist()}, ids={ids})', residual=abs(res))
-        else: rec.refuse('bubble temperature at the edge of the vapour-pressure domain (not judged)')
+        else:
+            # an edge of the domain is "not judged" only where the harness itself sees no root of the bubble equation inside the common vapour-pressure window
+            inside = root_interior('bubble', ref, z, P0, Tlo, Thi)
+            rec.hit('edge:bubble')
+            if inside is True or not np.isfinite(T):
+                rec.check(False, 'bubble-residual', f'solve_Ty/{cls}/domain-edge-returned/root-interior', f'bubble temperature {T!r} at P={P0} lies at / outside the solver\'s domain ({Tlo}, {Thi}) although 1 - sum(y) changes sign inside the '
+                          f'common vapour-pressure window {psat_window(ref, z, Tlo, Thi)} (z={z.tolist()}, ids={ids})')
+            else: rec.refuse('bubble temperature at the edge of the vapour-pressure domain (not judged)' + (': the harness sees no root inside the window' if inside is False else ': the existence of a root could not be decided'))
         rec.check(abs(y.sum() - 1) <= 1e-12 and (y >= 0).all(), 'normalised', 'solve_Ty', f'returned y {y.tolist()} sums to {y.sum()!r}')
     dew_bad = {}
     for mname, r, TT, PP in (('solve_Px', Pd, T0, None), ('solve_Tx', Td, None, P0)):
@@ -215,34 +411,39 @@ def run_case(case, rec):
         val, x = r; x = np.asarray(x, float)
         T_, P_ = (TT, val) if mname == 'solve_Px' else (val, PP)
         if mname == 'solve_Tx' and not (Tlo < T_ < Thi):
-            rec.refuse('dew temperature at the edge of the vapour-pressure domain (not judged)'); dew_bad[mname] = 'edge'; continue
-        st, res = dew_status(dp, z, T_, P_, x, mname)
+            inside = root_interior('dew', ref, z, P0, Tlo, Thi)
+            rec.hit('edge:dew'); dew_bad[mname] = 'edge'
+            if inside is True or not np.isfinite(T_):
+                rec.check(False, 'dew-residual', f'solve_Tx/{cls}/domain-edge-returned/root-interior', f'dew temperature {T_!r} at P={P0} lies at / outside the solver\'s domain ({Tlo}, {Thi}) although 1 - sum(x) (harness-side fixed point) changes sign inside the '
+                          f'common vapour-pressure window {psat_window(ref, z, Tlo, Thi)} (z={z.tolist()}, ids={ids})')
+            else: rec.refuse('dew temperature at the edge of the vapour-pressure domain (not judged)' + (': the harness sees no root inside the window' if inside is False else ': the existence of a root could not be decided'))
+            continue
+        st, res = dew_status(rec, dp, ref, z, T_, P_, x, mname, cls)
         dew_bad[mname] = st
+        if st == 'harness-error': continue
         if st == 'ok':
             rec.ok('dew-residual', abs(res))
             rec.check(abs(x.sum() - 1) <= 1e-12, 'normalised', f'{mname}/{cls}', f'returned x {x.tolist()} sums to {x.sum()!r}')
         else:
-            rec.violation(f'C08/dew-residual/{mname}/{cls}/{"unconverged-iterate" if st == "unconverged" else "converged-but-wrong"}',
+            rec.violation(f'C08/dew-residual/{mname}/{cls}/{DEW_KEY[st]}',
                           f'{mname}: returned {"P" if mname == "solve_Px" else "T"}={val!r} at {"T=%s" % T0 if mname == "solve_Px" else "P=%s" % P0}: the dew equation gives 1 - sum(x) = {res!r}, x={x.tolist()} '
                           f'(z={z.tolist()}, ids={ids}, class={cls}); status: {st}')
     def dew_sfx(*methods):
         return '/dew-unconverged' if any(dew_bad.get(m) == 'unconverged' for m in methods) else ''
     # ---- inverse relation
     if Pb is not None and 5e3 <= Pb[0] <= 3e6:
-        r = call('inverse:solve_Ty(solve_Py)', lambda: bp.solve_Ty(z.copy(), Pb[0]))
+        r = call('inverse:solve_Ty(solve_Py)', lambda: bp.solve_Ty(z.copy(), Pb[0]), ('inverse', f'bubble/{cls}'))
         if r is not None and Tlo + 1 < T0 < Thi - 1 and 5e3 <= Pb[0] <= 3e6:
             isfx = ''
-            if abs(r[0] - T0) > 1e-4:
+            if not abs(r[0] - T0) <= 1e-4:
                 # same classification as the bubble-residual clause: is the returned temperature a root of the solver's own error function?
-                try:
-                    zn = z / z.sum(); own = bp._T_error(r[0], Pb[0], z / Pb[0], zn, np.asarray(r[1], float).copy())
-                    if abs(own) > 1e-7 or not np.isfinite(own): isfx = '/unconverged-iterate'
-                except Exception: isfx = '/unconverged-iterate'
+                isfx = bubble_iterate_sfx(rec, bp, ref, z, r[0], Pb[0], r[1], cls) if Tlo < r[0] < Thi else ''
             rec.check(abs(r[0] - T0) <= 1e-4, 'inverse', f'bubble/{cls}{isfx}', f'solve_Ty(z, solve_Py(z,{T0}).P={Pb[0]!r}).T = {r[0]!r}', residual=abs(r[0] - T0))
     if Pd is not None and 5e3 <= Pd[0] <= 3e6:
-        r = call('inverse:solve_Tx(solve_Px)', lambda: dp.solve_Tx(z.copy(), Pd[0]))
+        r = call('inverse:solve_Tx(solve_Px)', lambda: dp.solve_Tx(z.copy(), Pd[0]), ('inverse', f'dew/{cls}' + ('/dew-unconverged' if dew_bad.get('solve_Px') == 'unconverged' else '')), None, dew_exc('solve_Tx', T0, Pd[0], 'inverse'))
         if r is not None and Tlo + 1 < T0 < Thi - 1:
-            st2, _ = dew_status(dp, z, r[0], Pd[0], r[1], 'solve_Tx') if Tlo < r[0] < Thi else ('unconverged', 0)
+            # (a temperature at the edge of the domain is not "unconverged": T0 lies inside, so the dew pressure just computed has a root there)
+            st2, _ = dew_status(rec, dp, ref, z, r[0], Pd[0], r[1], 'solve_Tx', cls) if Tlo < r[0] < Thi else ('edge', 0)
             sfx = '/dew-unconverged' if (dew_bad.get('solve_Px') == 'unconverged' or st2 == 'unconverged') else ''
             if not sfx and abs(r[0] - T0) > 1e-4 and dew_bad.get('solve_Px') == 'ok' and st2 == 'ok':
                 sfx = '/multiple-roots'     # both points satisfy the dew equation at this pressure: two incipient liquids (partially miscible mixture)
@@ -263,60 +464,96 @@ def run_case(case, rec):
     for p in perms[:6]:
         pid = [ids[i] for i in p]
         thp = thermo(pid, case['ideal'], case.get('pkg')); chp = tuple(thp.chemicals)
+        stage = 'construct'
         try:
             bpp = eq.BubblePoint(chp, thp); dpp = eq.DewPoint(chp, thp)
+            refp = ref_models(thp, chp)
+            check_wiring(rec, bpp, refp, 'BubblePoint/permuted'); check_wiring(rec, dpp, refp, 'DewPoint/permuted')
             zp = z[list(p)]
             if Pb is not None:
+                stage = 'bubble-P'
                 r = bpp.solve_Py(zp.copy(), T0)
                 rec.check(abs(r[0] - Pb[0]) <= 1e-9 * Pb[0] + 1e-2 and np.allclose(r[1], np.asarray(Pb[1])[list(p)], rtol=1e-8, atol=1e-14), 'permutation', f'bubble-P/{cls}', f'bubble pressure depends on the order of the chemicals: {Pb[0]!r} vs {r[0]!r} for order {pid}')
             if Tb is not None and Tlo < Tb[0] < Thi:
+                stage = 'bubble-T'
                 r = bpp.solve_Ty(zp.copy(), P0)
                 rec.check(abs(r[0] - Tb[0]) <= 1e-9 * Tb[0] + 1e-8, 'permutation', f'bubble-T/{cls}' + ('/bubble-unconverged' if bub_bad.get('solve_Ty') else ''), f'bubble temperature depends on the order of the chemicals: {Tb[0]!r} vs {r[0]!r} for order {pid}')
                 rec.check(np.allclose(r[1], np.asarray(Tb[1])[list(p)], rtol=1e-6, atol=1e-12), 'permutation', f'bubble-T-y/{cls}' + ('/bubble-unconverged' if bub_bad.get('solve_Ty') else ''), f'the vapour composition at the bubble temperature is not permuted with the list: {np.asarray(Tb[1])[list(p)].tolist()} vs {np.asarray(r[1]).tolist()} for order {pid}')
             if Pd is not None:
+                stage = 'dew-P'
                 r = dpp.solve_Px(zp.copy(), T0)
-                stp, _ = dew_status(dpp, zp, T0, r[0], r[1], 'solve_Px')
+                stp, _ = dew_status(rec, dpp, refp, zp, T0, r[0], r[1], 'solve_Px', cls)
                 rec.check(abs(r[0] - Pd[0]) <= 1e-6 * Pd[0] + 1e-2, 'permutation', f'dew-P/{cls}' + ('/dew-unconverged' if (stp == 'unconverged' or dew_bad.get('solve_Px') == 'unconverged') else ''), f'dew pressure depends on the order of the chemicals: {Pd[0]!r} vs {r[0]!r} for order {pid}')
                 if stp == 'ok' and dew_bad.get('solve_Px') == 'ok' and abs(r[0] - Pd[0]) <= 1e-6 * Pd[0] + 1e-2:
                     rec.check(np.allclose(r[1], np.asarray(Pd[1])[list(p)], rtol=0, atol=1e-5), 'permutation', f'dew-P-x/{cls}', f'the liquid composition at the dew pressure is not permuted with the list: {np.asarray(Pd[1])[list(p)].tolist()} vs {np.asarray(r[1]).tolist()} for order {pid}')
             if Td is not None and Tlo < Td[0] < Thi:
+                stage = 'dew-T'
                 r = dpp.solve_Tx(zp.copy(), P0)
-                stp, _ = dew_status(dpp, zp, r[0], P0, r[1], 'solve_Tx') if Tlo < r[0] < Thi else ('unconverged', 0)
+                # (the base result lies inside the domain: an edge returned for the permuted list is a dependence on the order, not "unconverged")
+                stp, _ = dew_status(rec, dpp, refp, zp, r[0], P0, r[1], 'solve_Tx', cls) if Tlo < r[0] < Thi else ('edge', 0)
                 rec.check(abs(r[0] - Td[0]) <= 1e-4, 'permutation', f'dew-T/{cls}' + ('/dew-unconverged' if (stp == 'unconverged' or dew_bad.get('solve_Tx') == 'unconverged') else ''), f'dew temperature depends on the order of the chemicals: {Td[0]!r} vs {r[0]!r} for order {pid}')
                 if stp == 'ok' and dew_bad.get('solve_Tx') == 'ok' and abs(r[0] - Td[0]) <= 1e-4:
                     rec.check(np.allclose(r[1], np.asarray(Td[1])[list(p)], rtol=0, atol=1e-5), 'permutation', f'dew-T-x/{cls}', f'the liquid composition at the dew temperature is not permuted with the list: {np.asarray(Td[1])[list(p)].tolist()} vs {np.asarray(r[1]).tolist()} for order {pid}')
         except Exception as e:
-            if type(e).__name__ in ('InfeasibleRegion', 'DomainError'): rec.refuse('permuted call refused'); continue
+            if type(e).__name__ in ('InfeasibleRegion', 'DomainError'):
+                # the same problem on the list in its first order has just been solved: a refusal here is a dependence on the order
+                rec.hit('refusal:not-warranted')
+                rec.check(False, 'permutation', f'{stage}/{cls}/refused' + (('/dew-unconverged' if dew_bad.get('solve_Px' if stage == 'dew-P' else 'solve_Tx') == 'unconverged' else '') if stage.startswith('dew') else ''),
+                          f'the solver on the permuted list {pid} refused ({type(e).__name__}: {str(e)[:100]}) the problem ({stage}) it solved for the order {ids}'); continue
             rec.exception(f'permutation/{cls}', e, what=f'solver on the permuted list {pid} raised {type(e).__name__}: {str(e)[:100]}'); break
     # ---- scale of z: through the public call form and through the solve_* methods
     k = case['k']
     for name, obj, kw, base in (('BubblePoint(z,T)', bp, {'T': T0}, Pb), ('BubblePoint(z,P)', bp, {'P': P0}, Tb), ('DewPoint(z,T)', dp, {'T': T0}, Pd), ('DewPoint(z,P)', dp, {'P': P0}, Td)):
         if base is None: continue
+        if 'P' in kw and not (Tlo < base[0] < Thi): continue         # the solve_* result on this input lies at an edge of the domain: judged (or refused) above
         try:
             a = obj(z.copy(), **kw); b = obj(k * z, **kw)
             va, vb = (a.P, b.P) if 'T' in kw else (a.T, b.T)
-            if 'P' in kw and not (Tlo < va < Thi): continue
             sfx = ''
             if name.startswith('Dew'):
                 m_ = 'solve_Px' if 'T' in kw else 'solve_Tx'
-                sa = dew_status(dp, z, T0 if 'T' in kw else a.T, a.P if 'T' in kw else P0, a.x, m_)[0]
+                sa = dew_status(rec, dp, ref, z, T0 if 'T' in kw else a.T, a.P if 'T' in kw else P0, a.x, m_, cls)[0] if ('T' in kw or Tlo < a.T < Thi) else 'edge'
                 # only an unconverged result for z itself excuses the comparison: the call form normalises, so k*z reaches the solver as z
                 # (a wrong answer for k*z alone is exactly what this clause is about and must not be classified away)
                 if sa == 'unconverged': sfx = '/dew-unconverged'
             rec.check(abs(va - vb) <= 1e-7 * abs(va), 'scale', f'call/{name}/{cls}{sfx}', f'{name}: z gives {va!r} but {k}*z gives {vb!r}', detail={'z': z.tolist(), 'k': k, 'ids': ids})
         except Exception as e:
-            if type(e).__name__ in ('InfeasibleRegion', 'DomainError'): rec.refuse('scaled call refused'); continue
-            rec.exception('scale', e, what=f'{name} with k*z raised {type(e).__name__}: {str(e)[:100]}')
+            if type(e).__name__ in ('InfeasibleRegion', 'DomainError'):
+                # the call form normalises: both calls pose the problem the solve_* method has just solved
+                rec.hit('refusal:not-warranted')
+                rec.check(False, 'scale', f'call/{name}/{cls}/refused', f'{name} with z or {k}*z refused ({type(e).__name__}: {str(e)[:100]}) the problem its solve_* method solved', detail={'z': z.tolist(), 'k': k, 'ids': ids}); continue
+            rec.exception(f'scale/call/{name}/{cls}', e, what=f'{name} with k*z raised {type(e).__name__}: {str(e)[:100]}')
     for name, fn, base in (('BubblePoint.solve_Py', lambda zz: bp.solve_Py(zz, T0), Pb), ('BubblePoint.solve_Ty', lambda zz: bp.solve_Ty(zz, P0), Tb),
                            ('DewPoint.solve_Px', lambda zz: dp.solve_Px(zz, T0), Pd), ('DewPoint.solve_Tx', lambda zz: dp.solve_Tx(zz, P0), Td)):
         if base is None: continue
         if name.endswith(('Ty', 'Tx')) and not (Tlo < base[0] < Thi): continue
+        meth = name.split('.')[1]
+        def as_given_root():
+            if meth == 'solve_Px': return dew_P_root_exists(ref, z, T0, k * z)
+            return root_interior('bubble' if meth == 'solve_Ty' else 'dew', ref, z, P0, Tlo, Thi, k * z)
         try:
             r = fn(k * z)
-            rec.check(abs(r[0] - base[0]) <= 1e-7 * abs(base[0]), 'scale', f'method/{name}', f'{name}: z gives {base[0]!r} but {k}*z gives {r[0]!r}', detail={'z': z.tolist(), 'k': k, 'ids': ids})
         except Exception as e:
-            if type(e).__name__ in ('InfeasibleRegion', 'DomainError'): rec.refuse('scaled call refused'); continue
-            rec.exception('scale', e, what=f'{name} with k*z raised {type(e).__name__}: {str(e)[:100]}')
+            if type(e).__name__ in ('InfeasibleRegion', 'DomainError'):
+                # solve_Py normalises (the problem just solved); the other three use the amounts as given (recorded finding): refusal warranted where the harness sees no root of the as-given equation
+                inside = True if meth == 'solve_Py' else as_given_root()
+                if inside is True:
+                    rec.hit('refusal:not-warranted')
+                    rec.check(False, 'scale', f'method/{name}/refused/{cls}', f'{name} with {k}*z refused ({type(e).__name__}: {str(e)[:100]}) although the harness sees a root of the ' + ('equation' if meth == 'solve_Py' else 'as-given equation') + ' inside the window', detail={'z': z.tolist(), 'k': k, 'ids': ids})
+                else: rec.refuse(f'scaled call refused: {name} with k*z, no root of the as-given equation inside the window')
+                continue
+            # (an exception of the as-given problem is the recorded mechanism only where that problem has left the domain: the harness's own verdict on its root is part of the key)
+            inside = True if meth == 'solve_Py' else as_given_root()
+            rec.exception(f'scale/method/{name}/{"as-given-root-exists" if inside is True else "no-as-given-root"}/{KTAG.get(k, "k=other")}/{cls}', e, what=f'{name} with k*z raised {type(e).__name__}: {str(e)[:100]}'); continue
+        same = abs(r[0] - base[0]) <= 1e-7 * abs(base[0])
+        sfx = ''
+        if not same and meth != 'solve_Py':
+            # the recorded finding is one mechanism: the amounts are used as given.  a result for k*z is classed under it only when it is the root of that as-given equation
+            ag = as_given_class(ref, meth, z, k, T0, P0, r, Tlo, Thi)
+            rec.hit(f'scale:as-given-{ag}:{name}')
+            if ag == 'missed': sfx = f'/as-given-root-missed/{KTAG.get(k, "k=other")}/{cls}'
+            elif ag == 'no-root': sfx = f'/no-as-given-root/{KTAG.get(k, "k=other")}'
+        rec.check(same, 'scale', f'method/{name}{sfx}', f'{name}: z gives {base[0]!r} but {k}*z gives {r[0]!r}' + (f' (as-given equation: {sfx[1:]})' if sfx else ''), detail={'z': z.tolist(), 'k': k, 'ids': ids})
     try: extra(case, rec, th, chems, bp, dp, z, T0, P0, cls, Pb, Tb, Pd, Td, dew_bad, call, bub_bad)
     except Exception as e: rec.exception('harness', e, what=f'harness error in the additional clauses: {type(e).__name__}: {e}')
     if int((z > 1e-6).sum()) >= 2: rec.mark_nontrivial(case_hash(case))
@@ -338,14 +575,18 @@ def single_extra(case, rec, th, chems, bp, dp, z, T0, P0, k_pos):
     for name, fn, exp in forms:
         try: r = fn()
         except Exception as e:
-            if refusal(e): rec.refuse(f'single {name}: {type(e).__name__}'); continue
+            if refusal(e):
+                rec.hit('refusal:not-warranted')
+                rec.check(False, 'single-component', name.split('(')[0] + '/scaled/refused', f'single component {c.ID} (k={k}): {name} refused ({type(e).__name__}: {str(e)[:100]}) although the saturation value is {exp!r}'); continue
             rec.exception('single-component', e, what=f'single component {c.ID}: {name} raised {type(e).__name__}: {str(e)[:100]}'); continue
         rec.hit('single:scaled')
         rec.check(r[0] == exp and np.array_equal(np.asarray(r[1], float), unit), 'single-component', name.split('(')[0] + '/scaled', f'single component {c.ID} (k={k}): {name} gives {r[0]!r}, {np.asarray(r[1]).tolist()} but the saturation value is {exp!r}')
     for name, obj, kw, exp in (('BubblePoint(z,T)', bp, {'T': T0}, expP), ('BubblePoint(z,P)', bp, {'P': P0}, expT), ('DewPoint(z,T)', dp, {'T': T0}, expP), ('DewPoint(z,P)', dp, {'P': P0}, expT)):
         try: a = obj(list(k * z), **kw)
         except Exception as e:
-            if refusal(e): rec.refuse(f'single {name}: {type(e).__name__}'); continue
+            if refusal(e):
+                rec.hit('refusal:not-warranted')
+                rec.check(False, 'single-component', 'call/' + name + '/refused', f'single component {c.ID}: {name} with {k}*z as a list refused ({type(e).__name__}: {str(e)[:100]}) although the saturation value is {exp!r}'); continue
             rec.exception('single-component', e, what=f'single component {c.ID}: {name} raised {type(e).__name__}: {str(e)[:100]}'); continue
         val = a.P if 'T' in kw else a.T
         comp = np.asarray(a.y if name.startswith('Bubble') else a.x, float)
@@ -364,7 +605,9 @@ def single_extra(case, rec, th, chems, bp, dp, z, T0, P0, k_pos):
                 rec.hit('single:permuted')
                 rec.check(r[0] == exp and np.array_equal(np.asarray(r[1], float), unit[p]), 'single-component', name + '/permuted', f'single component {c.ID} listed as {pid}: {name} gives {r[0]!r}, {np.asarray(r[1]).tolist()} but the saturation value is {exp!r}')
         except Exception as e:
-            if refusal(e): rec.refuse('single permuted call refused')
+            if refusal(e):
+                rec.hit('refusal:not-warranted')
+                rec.check(False, 'single-component', 'permuted/refused', f'single component {c.ID} listed as {pid}: refused ({type(e).__name__}: {str(e)[:100]}) although the saturation values are {expP!r}, {expT!r}')
             else: rec.exception('single-component', e, what=f'single component on the permuted list {pid} raised {type(e).__name__}: {str(e)[:100]}')
 
 
@@ -373,15 +616,17 @@ def extra(case, rec, th, chems, bp, dp, z, T0, P0, cls, Pb, Tb, Pd, Td, dew_bad,
     ids = case['ids']; k = case['k']; n = len(ids)
     Tlo, Thi = bp.Tmin, bp.Tmax
     zn = z / z.sum()
+    ref = ref_models(th, chems)
     # ---- inverse relation, the other way round: the pressure at the temperature obtained from a pressure
     if Tb is not None and Tlo + 1 < Tb[0] < Thi - 1:
-        r = call('inverse:solve_Py(solve_Ty)', lambda: bp.solve_Py(z.copy(), Tb[0]))
+        r = call('inverse:solve_Py(solve_Ty)', lambda: bp.solve_Py(z.copy(), Tb[0]), ('inverse', f'bubble-P/{cls}' + ('/bubble-unconverged' if bub_bad.get('solve_Ty') else '')))
         # (equivalent of the 1e-4 K bound of the T<-P<-T direction: d ln P / dT of a bubble line is below 0.1 / K)
         if r is not None: rec.check(abs(r[0] - P0) <= 1e-5 * P0, 'inverse', f'bubble-P/{cls}' + ('/bubble-unconverged' if bub_bad.get('solve_Ty') else ''), f'solve_Py(z, solve_Ty(z,{P0}).T={Tb[0]!r}).P = {r[0]!r}', residual=abs(r[0] - P0) / P0)
-    if Td is not None and Tlo + 1 < Td[0] < Thi - 1 and dew_bad.get('solve_Tx') in ('ok', 'unconverged', 'wrong'):
-        r = call('inverse:solve_Px(solve_Tx)', lambda: dp.solve_Px(z.copy(), Td[0]))
+    if Td is not None and Tlo + 1 < Td[0] < Thi - 1 and dew_bad.get('solve_Tx') in ('ok', 'unconverged', 'wrong', 'unconverged-low', 'unclassified'):
+        r = call('inverse:solve_Px(solve_Tx)', lambda: dp.solve_Px(z.copy(), Td[0]), ('inverse', (f'dew-P/{cls}/dew-unconverged' if dew_bad.get('solve_Tx') == 'unconverged' else f'dew/{cls}/P-from-T')), None,
+                 'inverse/cross-family' if cls == 'cross-family' else f'inverse/solve_Px/{cls}/{bucket(ref, z, "solve_Px", Td[0], P0)}')
         if r is not None:
-            st2, _ = dew_status(dp, z, Td[0], r[0], r[1], 'solve_Px')
+            st2, _ = dew_status(rec, dp, ref, z, Td[0], r[0], r[1], 'solve_Px', cls)
             sfx = '/dew-unconverged' if (dew_bad.get('solve_Tx') == 'unconverged' or st2 == 'unconverged') else ''
             if not sfx and abs(r[0] - P0) > 1e-5 * P0 and dew_bad.get('solve_Tx') == 'ok' and st2 == 'ok': sfx = '/multiple-roots'
             key = f'dew-P/{cls}/dew-unconverged' if sfx == '/dew-unconverged' else f'dew/{cls}/P-from-T{sfx}'
@@ -392,7 +637,13 @@ def extra(case, rec, th, chems, bp, dp, z, T0, P0, cls, Pb, Tb, Pd, Td, dew_bad,
         for form, arg in ((('list', list(k * z)), ('tuple', tuple(k * z)))[case['pseed'] % 2],):
             try: a = obj(arg, **kw)
             except Exception as e:
-                if refusal(e): rec.refuse('call form refused'); continue
+                if refusal(e):
+                    # the call form normalises: it poses the problem the solve_* method has just solved
+                    if 'T' in kw or Tlo < base[0] < Thi:
+                        rec.hit('refusal:not-warranted')
+                        rec.check(False, 'call-form', f'value/{name}/{cls}/refused' + ('/dew-unconverged' if name.startswith('Dew') and dew_bad.get(meth) == 'unconverged' else ''), f'{name} with z as a {form} refused ({type(e).__name__}: {str(e)[:100]}) the problem {meth} solved')
+                    else: rec.refuse('call form refused (the solve_* result on this input lies at an edge of the domain)')
+                    continue
                 rec.exception(f'call-form/{cls}', e, what=f'{name} with z as a {form} raised {type(e).__name__}: {str(e)[:100]}'); continue
             rec.hit('call-form:' + form)
             given, val = (a.T, a.P) if 'T' in kw else (a.P, a.T)
@@ -429,7 +680,9 @@ def extra(case, rec, th, chems, bp, dp, z, T0, P0, cls, Pb, Tb, Pd, Td, dew_bad,
                 if form == 'IDs': kw['IDs'] = tuple(ids)                      # every chemical of the package, the absent ones at zero
                 try: a = fn(**kw)
                 except Exception as e:
-                    if refusal(e): rec.refuse('stream-level call refused'); continue
+                    if refusal(e):
+                        rec.hit('refusal:not-warranted')
+                        rec.check(False, 'stream-level', f'{name}/{form}/{cls}/refused{dsfx}', f'Stream.{name}({kw}) with flows {k}*z refused ({type(e).__name__}: {str(e)[:100]}) the problem {meth} solved on the normalised composition (ids={ids}, z={zn.tolist()})'); continue
                     rec.exception(f'stream-level/{cls}', e, what=f'Stream.{name}({kw}) on {ids} raised {type(e).__name__}: {str(e)[:100]}'); continue
                 # the solver behind the stream-level call is built on the chemicals with flow: its vapour-pressure domain (Tmin, Tmax) can be narrower than the
                 # package's, and outside it the solvers clamp the temperature (documented edge of the domain: not judged)
@@ -442,18 +695,21 @@ def extra(case, rec, th, chems, bp, dp, z, T0, P0, cls, Pb, Tb, Pd, Td, dew_bad,
                 full = np.zeros(n)
                 if form == 'IDs': full = comp
                 else: full[sub] = comp
-                ref = np.asarray(base[1], float)
+                refc = np.asarray(base[1], float)
                 dsfx2 = dsfx
                 if name.startswith('dew') and not dsfx2:
                     # is the stream-level result itself a converged dew point of the solver that produced it?
                     dps = s.get_dew_point(kw.get('IDs')); zs_ = z if form == 'IDs' else z[sub]
-                    st_ = dew_status(dps, zs_, T0 if name.endswith('_T') else a.T, a.P if name.endswith('_T') else P0, comp, meth)[0] if (name.endswith('_T') or Tlo < a.T < Thi) else 'unconverged'
+                    refs = ref if form == 'IDs' else ref_models(th, tuple(chems[j] for j in sub))
+                    check_wiring(rec, dps, refs, 'DewPoint/stream-level')
+                    # (the solver's result lies inside the domain: an edge returned at stream level is a disagreement, not "unconverged")
+                    st_ = dew_status(rec, dps, refs, zs_, T0 if name.endswith('_T') else a.T, a.P if name.endswith('_T') else P0, comp, meth, cls)[0] if (name.endswith('_T') or Tlo < a.T < Thi) else 'edge'
                     if st_ == 'unconverged': dsfx2 = '/dew-unconverged'
                 # the subset solver sees the same mixture without the absent members: same value to the solvers' resolution (1e-7 relative as for the scale clause; compositions 1e-6)
                 tolv = (1e-7 * abs(base[0]) + (2e-3 if name.endswith('_T') else 0.0)) if not name.startswith('dew') else (1e-6 * abs(base[0]) + 1e-2 if name.endswith('_T') else 1e-4)
                 if name == 'bubble_point_at_P' and bub_bad.get('solve_Ty'): dsfx2 = '/bubble-unconverged'
-                rec.check(abs(val - base[0]) <= tolv and (bool(dsfx2) or np.allclose(full, ref, rtol=0, atol=1e-5)), 'stream-level', f'{name}/{form}/{cls}{dsfx2}',
-                          f'Stream.{name}({kw}) with flows {k}*z gives {val!r}, {full.tolist()} but {meth} on the normalised composition gives {base[0]!r}, {ref.tolist()} (ids={ids}, z={zn.tolist()})', residual=abs(val - base[0]) / abs(base[0]))
+                rec.check(abs(val - base[0]) <= tolv and (bool(dsfx2) or np.allclose(full, refc, rtol=0, atol=1e-5)), 'stream-level', f'{name}/{form}/{cls}{dsfx2}',
+                          f'Stream.{name}({kw}) with flows {k}*z gives {val!r}, {full.tolist()} but {meth} on the normalised composition gives {base[0]!r}, {refc.tolist()} (ids={ids}, z={zn.tolist()})', residual=abs(val - base[0]) / abs(base[0]))
     except Exception as e:
         rec.exception(f'stream-level/{cls}', e, what=f'stream-level bubble / dew point on {ids} raised {type(e).__name__}: {str(e)[:100]}')
     # ---- permutation: the returned compositions are permuted with the list (all four solvers); for n >= 4 permutations drawn at random instead of the lexicographic head
@@ -466,61 +722,82 @@ def extra(case, rec, th, chems, bp, dp, z, T0, P0, cls, Pb, Tb, Pd, Td, dew_bad,
         if p not in head and p not in perms: perms.append(p)
     for p in perms:
         pid = [ids[i] for i in p]
+        stage = 'construct'
         try:
             thp = thermo(pid, case['ideal'], case.get('pkg')); chp = tuple(thp.chemicals)
             bpp = eq.BubblePoint(chp, thp); dpp = eq.DewPoint(chp, thp); zp = z[p]
+            refp = ref_models(thp, chp)
+            check_wiring(rec, bpp, refp, 'BubblePoint/permuted'); check_wiring(rec, dpp, refp, 'DewPoint/permuted')
             rec.hit('permutation:random')
             if Pb is not None:
+                stage = 'bubble-P'
                 r = bpp.solve_Py(zp.copy(), T0)
                 rec.check(abs(r[0] - Pb[0]) <= 1e-9 * Pb[0] + 1e-2 and np.allclose(r[1], np.asarray(Pb[1])[p], rtol=1e-8, atol=1e-14), 'permutation', f'bubble-P/{cls}', f'bubble pressure / y depend on the order of the chemicals: {Pb[0]!r} vs {r[0]!r} for order {pid}')
             if Tb is not None and Tlo < Tb[0] < Thi:
+                stage = 'bubble-T'
                 r = bpp.solve_Ty(zp.copy(), P0)
                 rec.check(abs(r[0] - Tb[0]) <= 1e-9 * Tb[0] + 1e-8 and np.allclose(r[1], np.asarray(Tb[1])[p], rtol=1e-6, atol=1e-12), 'permutation', f'bubble-T/{cls}' + ('/bubble-unconverged' if bub_bad.get('solve_Ty') else ''), f'bubble temperature / y depend on the order of the chemicals: {Tb[0]!r}, {np.asarray(Tb[1])[p].tolist()} vs {r[0]!r}, {np.asarray(r[1]).tolist()} for order {pid}')
             if Pd is not None and dew_bad.get('solve_Px') in ('ok', 'unconverged'):
+                stage = 'dew-P'
                 r = dpp.solve_Px(zp.copy(), T0)
-                stp, _ = dew_status(dpp, zp, T0, r[0], r[1], 'solve_Px')
+                stp, _ = dew_status(rec, dpp, refp, zp, T0, r[0], r[1], 'solve_Px', cls)
                 sfx = '/dew-unconverged' if (stp == 'unconverged' or dew_bad.get('solve_Px') == 'unconverged') else ''
                 rec.check(abs(r[0] - Pd[0]) <= 1e-6 * Pd[0] + 1e-2 and (bool(sfx) or np.allclose(r[1], np.asarray(Pd[1])[p], rtol=0, atol=1e-5)), 'permutation', f'dew-P/{cls}{sfx}', f'dew pressure / x depend on the order of the chemicals: {Pd[0]!r}, {np.asarray(Pd[1])[p].tolist()} vs {r[0]!r}, {np.asarray(r[1]).tolist()} for order {pid}')
             if Td is not None and Tlo < Td[0] < Thi and dew_bad.get('solve_Tx') in ('ok', 'unconverged'):
+                stage = 'dew-T'
                 r = dpp.solve_Tx(zp.copy(), P0)
-                stp, _ = dew_status(dpp, zp, r[0], P0, r[1], 'solve_Tx') if Tlo < r[0] < Thi else ('unconverged', 0)
+                stp, _ = dew_status(rec, dpp, refp, zp, r[0], P0, r[1], 'solve_Tx', cls) if Tlo < r[0] < Thi else ('edge', 0)
                 sfx = '/dew-unconverged' if (stp == 'unconverged' or dew_bad.get('solve_Tx') == 'unconverged') else ''
                 rec.check(abs(r[0] - Td[0]) <= 1e-4 and (bool(sfx) or np.allclose(r[1], np.asarray(Td[1])[p], rtol=0, atol=1e-5)), 'permutation', f'dew-T/{cls}{sfx}', f'dew temperature / x depend on the order of the chemicals: {Td[0]!r}, {np.asarray(Td[1])[p].tolist()} vs {r[0]!r}, {np.asarray(r[1]).tolist()} for order {pid}')
         except Exception as e:
-            if refusal(e): rec.refuse('permuted call refused'); continue
+            if refusal(e):
+                rec.hit('refusal:not-warranted')
+                rec.check(False, 'permutation', f'{stage}/{cls}/refused' + (('/dew-unconverged' if dew_bad.get('solve_Px' if stage == 'dew-P' else 'solve_Tx') == 'unconverged' else '') if stage.startswith('dew') else ''),
+                          f'the solver on the permuted list {pid} refused ({type(e).__name__}: {str(e)[:100]}) the problem ({stage}) it solved for the order {ids}'); continue
             rec.exception(f'permutation/{cls}', e, what=f'solver on the permuted list {pid} raised {type(e).__name__}: {str(e)[:100]}'); break
     # ---- a solver built on a subset of the package's chemicals (the way the flash builds them) against a package that holds only that subset;
     #      and the cached instance (used by every earlier case on this list) against a freshly constructed one
     sub = [j for j in range(n) if z[j] > 0]
     if 2 <= len(sub) < n:
         try:
-            sc = tuple(chems[j] for j in sub); zs = z[sub]
+            sc = tuple(chems[j] for j in sub); zs = z[sub]; stage = 'construct'
             b1 = eq.BubblePoint(sc, th); d1 = eq.DewPoint(sc, th)
             th2 = thermo([ids[j] for j in sub], case['ideal'], case.get('pkg')); c2 = tuple(th2.chemicals)
             b2 = eq.BubblePoint(c2, th2); d2 = eq.DewPoint(c2, th2)
             rec.hit('subset-of-package')
+            ref1 = ref_models(th, sc)
+            check_wiring(rec, b1, ref1, 'BubblePoint/subset'); check_wiring(rec, d1, ref1, 'DewPoint/subset')
             for name, f1, f2, base in (('solve_Py', lambda: b1.solve_Py(zs.copy(), T0), lambda: b2.solve_Py(zs.copy(), T0), Pb), ('solve_Ty', lambda: b1.solve_Ty(zs.copy(), P0), lambda: b2.solve_Ty(zs.copy(), P0), Tb),
                                        ('solve_Px', lambda: d1.solve_Px(zs.copy(), T0), lambda: d2.solve_Px(zs.copy(), T0), Pd), ('solve_Tx', lambda: d1.solve_Tx(zs.copy(), P0), lambda: d2.solve_Tx(zs.copy(), P0), Td)):
                 if base is None: continue
                 if name.endswith(('Ty', 'Tx')) and not (Tlo < base[0] < Thi): continue
+                stage = name
                 r1 = f1(); r2 = f2()
                 rec.check(r1[0] == r2[0] and np.array_equal(np.asarray(r1[1]), np.asarray(r2[1])), 'subset', f'{name}/{cls}', f'{name} of a solver built on {[c.ID for c in sc]} inside the package {ids} gives {r1[0]!r} but {r2[0]!r} in a package of exactly these chemicals')
         except Exception as e:
-            if refusal(e): rec.refuse('subset call refused')
+            if refusal(e):
+                # the solver on the whole list has just solved this problem (the absent members carry zero)
+                rec.hit('refusal:not-warranted')
+                rec.check(False, 'subset', f'{stage}/{cls}/refused', f'{stage} of a solver on the subset {[c.ID for c in sc]} of {ids} refused ({type(e).__name__}: {str(e)[:100]}) the problem solved on the whole list')
             else: rec.exception(f'subset/{cls}', e, what=f'solver on a subset of {ids} raised {type(e).__name__}: {str(e)[:100]}')
     if case.get('fresh'):
         saved_b, saved_d = dict(eq.BubblePoint._cached), dict(eq.DewPoint._cached)
+        stage = 'construct'
         try:
             eq.BubblePoint._cached.clear(); eq.DewPoint._cached.clear()
             bf = eq.BubblePoint(chems, th); df = eq.DewPoint(chems, th)
             rec.hit('fresh-instance')
+            check_wiring(rec, bf, ref, 'BubblePoint/fresh'); check_wiring(rec, df, ref, 'DewPoint/fresh')
             rec.check(bf is not bp and df is not dp, 'cache', 'new-after-clear', 'clearing the instance cache did not produce a new solver object')
             for name, fn, base in (('solve_Py', lambda: bf.solve_Py(z.copy(), T0), Pb), ('solve_Ty', lambda: bf.solve_Ty(z.copy(), P0), Tb), ('solve_Px', lambda: df.solve_Px(z.copy(), T0), Pd), ('solve_Tx', lambda: df.solve_Tx(z.copy(), P0), Td)):
                 if base is None: continue
+                stage = name
                 r = fn()
                 rec.check(r[0] == base[0] and np.array_equal(np.asarray(r[1]), np.asarray(base[1])), 'cache', f'{name}/{cls}', f'{name}: the cached solver (used by earlier cases) gives {base[0]!r} but a freshly constructed one gives {r[0]!r} (ids={ids}, z={z.tolist()})')
         except Exception as e:
-            if refusal(e): rec.refuse('fresh-instance call refused')
+            if refusal(e):
+                rec.hit('refusal:not-warranted')
+                rec.check(False, 'cache', f'{stage}/{cls}/refused', f'{stage}: a freshly constructed solver refused ({type(e).__name__}: {str(e)[:100]}) the problem the cached one solved (ids={ids}, z={z.tolist()})')
             else: rec.exception(f'cache/{cls}', e, what=f'fresh solver on {ids} raised {type(e).__name__}: {str(e)[:100]}')
         finally:
             eq.BubblePoint._cached.clear(); eq.BubblePoint._cached.update(saved_b); eq.DewPoint._cached.clear(); eq.DewPoint._cached.update(saved_d)
